@@ -10,7 +10,7 @@ from .. import ser
 from ..val import clone
 
 ID = 'C18'
-SIZES = {'quick': 400, 'thorough': 20000}
+SIZES = {'quick': 400, 'thorough': 80000}
 REQUIRED_EVENTS = ['noninterference_triples', 'strace_runs', 'probes_toward_outside']
 RULE = ('sandbox trees T/<root>/..., with decoy layer files outside the root (T/outside, and siblings whose names extend the root\'s name: '
         '<root>-old, <root>2, <root>.yaml); inputs inside the root reach for the decoys through $parent with .., absolute paths, wildcards, '
